@@ -35,13 +35,17 @@ PROBES = [
     ("(function(){ var s = 0; for (var i = 0; i < 5; i++) { if (i == 3) continue; s += i; } return s; })()", 7),
     ("parseInt('42px') + Number('1.5')", 43.5),
     ("Array.isArray([]) && !Array.isArray({})", True),
+    ("eval('1 + 1') + new Function('return 3')() + (function(){ return eval('eval(\"2\")'); })()", 7),
+    ("/(a+)+b/.test('aaaaaaaac') || 'aaaaaaab'.replace(/(a+)+b/, 'x')", "x"),
+    ("(function(){ var r = 0; [3, 1, 2].sort(function(a, b){ r++; return a - b; }); return r > 0; })()", True),
 ]
 
 # operation kinds; each returns (source or python action, expectation kind)
-OPS = ["def-var", "assign", "redeclare", "def-fn", "eval-def", "function-ctor-assign", "py-set", "mutate-builtin",
+REPEATABLE_FAILS = ["fail-syntax", "fail-throw", "fail-loop", "fail-recursion", "fail-callback", "fail-regex", "fail-eval-nesting", "fail-native-depth", "fail-regex-loop"]
+OPS = ["fail-eval-nesting", "fail-native-depth", "fail-regex-loop", "def-var", "assign", "redeclare", "def-fn", "eval-def", "function-ctor-assign", "py-set", "mutate-builtin",
        "fail-syntax", "fail-throw", "fail-loop", "fail-recursion", "fail-callback", "fail-regex", "mutate-in-place"]
 
-CONFIGS = [(None, None), (0.04, None), (None, 30000), (0.04, 30000)]
+CONFIGS = [(None, None), (0.25, None), (None, 30000), (0.25, 30000)]  # T generous: probes run under it on a loaded machine
 
 
 def run_history(task):
@@ -180,6 +184,20 @@ def run_history(task):
                 src = "var %s = %s; [1, 2].forEach(function(x){ var o = { get p(){ return null.x; } }; return o.p; });" % (name, lsrc)
                 models[ci][name] = ("val", lval)
                 expect_fail = True
+            elif op == "fail-eval-nesting":
+                src = "var %s = %s; var dive = function(){ return eval('dive()'); }; dive();" % (name, lsrc)
+                models[ci][name] = ("val", lval)
+                expect_fail = "MemoryLimitError"
+            elif op == "fail-native-depth":
+                src = "var %s = %s; var nd = function(){ return [1].map(nd); }; nd();" % (name, lsrc)
+                models[ci][name] = ("val", lval)
+                expect_fail = "MemoryLimitError"
+            elif op == "fail-regex-loop":
+                if T is None:
+                    continue
+                src = "var %s = %s; for (;;) { /(a+)+b/.test('aaaaaaaaaaaaaaaaaaaaaaaac'); }" % (name, lsrc)
+                models[ci][name] = ("val", lval)
+                expect_fail = "TimeLimitError"
             elif op == "fail-regex":
                 src = "var %s = %s; new RegExp('(');" % (name, lsrc)
                 models[ci][name] = ("val", lval)
@@ -200,11 +218,13 @@ def run_history(task):
                         return {"ctx": ci, "what": "host exception", "trace": trace[-6:], "actual": info}
                     if isinstance(expect_fail, str) and info["cls"] != expect_fail:
                         return {"ctx": ci, "what": "wrong limit error", "trace": trace[-6:], "expected": expect_fail, "actual": info["cls"]}
-            bad = observe()
-            if bad:
-                bad["trace"] = trace[-6:]
-                bad["after"] = op
-                return bad
+            stepno = len(trace)
+            if len(steps) < 50 or stepno % 10 == 0 or (ci, op, ni, li) == steps[-1]:
+                bad = observe()
+                if bad:
+                    bad["trace"] = trace[-6:]
+                    bad["after"] = op
+                    return bad
     except pool.HarnessTimeout:
         return {"what": "hang in observation", "trace": trace[-6:]}
     except Exception as ex:
@@ -234,7 +254,7 @@ def main(chk):
         "names, built-in isolation, 12-probe battery); non-trivial = a failing eval followed by >= 2 successful operations on the "
         "same context, or a built-in mutation followed by operations on another context; distinct by history" % len(OPS)
     )
-    chk.assumptions = ["time-limited contexts use the real clock with T = 40 ms; the model of an interrupted counter loop is only monotone (>=)"]
+    chk.assumptions = ["time-limited contexts use the real clock with T = 250 ms; the model of an interrupted counter loop is only monotone (>=)"]
     for path, rec in core.saved_replays("C12"):
         r = replay(rec)
         chk.count()
@@ -247,11 +267,17 @@ def main(chk):
     alphabet = [(c, op) for c in (0, 1) for op in OPS]
     allh = itertools.product(alphabet, repeat=L)
     for idx, h in enumerate(allh):
-        if quick and (idx + chk.seed) % 6 != 0:
+        if quick and (idx + chk.seed) % 24 != 0:
             continue
         steps = [(c, op, (idx + j) % 3, (idx // 3 + j) % len(LITS)) for j, (c, op) in enumerate(h)]
         tasks.append(((3, 0), steps))
     exhaustive_n = len(tasks)
+    # the same failure repeated many times on one context: nothing may accumulate (counters, handlers, caches)
+    for op in REPEATABLE_FAILS:
+        for cfg in (3, 1, 2):
+            reps = 70 if op not in ("fail-loop", "fail-regex-loop") else 12
+            steps = [(0, op, 0, 1)] * reps + [(0, "def-var", 1, 2), (1, "def-var", 2, 3)]
+            tasks.append(((cfg, 0), steps))
     rnd = random.Random(core.shard_seed(chk.seed, "C12", "random"))
     for _ in range(400 if quick else 8000):
         k = rnd.choice([2, 3])
